@@ -381,6 +381,57 @@ func TestC20(t *testing.T) {
 		if c.Thorough {
 			na = 300
 		}
+		// failures deep inside calls, accumulated over many lines (tens of thousands of abandoned activations in all):
+		// a later line that calls a function is answered as in a fresh session
+		c.Sub("accumulated-deep-failures", func(s *Sub) {
+			fails := []string{
+				"%s d(n) { %s (n > 0) { d(n - 1); } %s { nope; } } d(%d);",
+				"%s d(n) { %s (n > 0) { %s d(n - 1) + 1; } %s 1 - nil; } %s d(%d);",
+			}
+			probes := []struct{ line, want string }{
+				{fmt.Sprintf("%s s(n) { %s (n == 0) { %s 0; } %s n + s(n - 1); } %s s(10);", bn.KwFun, bn.KwIf, bn.KwReturn, bn.KwReturn, bn.KwPrint), "55\n"},
+				{fmt.Sprintf("%s s(n) { %s (n == 0) { %s 0; } %s n + s(n - 1); } s(2000);", bn.KwFun, bn.KwIf, bn.KwReturn, bn.KwReturn), "2.001e+06\n"},
+				{bn.KwFun + " f(a) { " + bn.KwReturn + " a + 1; } " + bn.KwPrint + " f(41);", "42\n"},
+			}
+			var k int64
+			for fi, f := range fails {
+				for _, dr := range [][2]int{{3000, 6}, {500, 40}, {50, 400}, {5, 5000}} {
+					k++
+					if !c.Mine(k) {
+						continue
+					}
+					var fl string
+					if fi == 0 {
+						fl = fmt.Sprintf(f, bn.KwFun, bn.KwIf, bn.KwElse, dr[0])
+					} else {
+						fl = fmt.Sprintf(f, bn.KwFun, bn.KwIf, bn.KwReturn, bn.KwReturn, bn.KwPrint, dr[0])
+					}
+					var lines []string
+					for i := 0; i < dr[1]; i++ {
+						lines = append(lines, fl)
+					}
+					for _, p := range probes {
+						lines = append(lines, p.line)
+					}
+					parts, status, raw, ok := c.c20Session(lines, true)
+					c.Ev.EnumCase("accumulated-deep-failures", true, func() string { return fmt.Sprintf("%d x %s, then %d probes", dr[1], fl, len(probes)) }, "accumulated-failures")
+					bad := ""
+					if !ok || status != 0 || len(parts) != len(lines)+2 {
+						bad = fmt.Sprintf("a session of %d lines must show %d prompts and end with status 0 (status %d, %d prompts)", len(lines), len(lines)+1, status, len(parts)-1)
+					} else {
+						for i, p := range probes {
+							if got := parts[dr[1]+1+i]; got != p.want {
+								bad = fmt.Sprintf("after %d failing lines the line %q answered %q instead of %q", dr[1], p.line, got, p.want)
+								break
+							}
+						}
+					}
+					if bad != "" {
+						s.Violation(Replay{Check: "builtin-session", Sig: "accumulated-failures", Source: fmt.Sprintf("%d x %s", dr[1], fl), Note: bad, Observed: fmt.Sprintf("status=%d output=%q", status, clip(raw[max(0, len(raw)-500):], 500))})
+					}
+				}
+			}
+		})
 		freshText := map[string]string{}
 		c.Rapid("repeated-failures", na, func(rt *rapid.T, s *Sub) {
 			deepFail := func(n int) string {
